@@ -90,6 +90,8 @@ def walk_actions(acts):
                 for x in walk_actions(body): yield x
             if a[2]:
                 for x in walk_actions(a[2]): yield x
+        elif a[0] == 'foreach':
+            for x in walk_actions(a[4]): yield x
 
 
 def is_atomic(s):
@@ -137,6 +139,8 @@ def ev_expr(e, env, conf):
     if k == 'lt': return ev_expr(e[1], env, conf) < ev_expr(e[2], env, conf)
     if k == 'not': return not ev_expr(e[1], env, conf)
     if k == 'or': return bool(ev_expr(e[1], env, conf)) or bool(ev_expr(e[2], env, conf))
+    if k == 'list': return list(e[1])
+    if k == 'evname': return env['_evname']
     raise ValueError(e)
 
 
@@ -152,6 +156,8 @@ def rn_expr(e, dm):
     if k == 'lt': return '%s < %s' % (rn_expr(e[1], dm), rn_expr(e[2], dm))
     if k == 'not': return ('not (%s)' if dm == 'lua' else '!(%s)') % rn_expr(e[1], dm)
     if k == 'or': return ('%s or %s' if dm != 'promela' else '%s || %s') % (rn_expr(e[1], dm), rn_expr(e[2], dm))    # deliberately without parentheses around the whole
+    if k == 'list': return ('{%s}' if dm == 'lua' else '[%s]') % ','.join(str(x) for x in e[1])
+    if k == 'evname': return '_event.name'
     raise ValueError(e)
 
 
@@ -188,6 +194,15 @@ def rn_actions(acts, dm, ind):
             if a[2] is not None:
                 out.append('%s<else/>' % ind); out += rn_actions(a[2], dm, ind + '  ')
             out.append('%s</if>' % ind)
+        elif a[0] == 'foreach':      # ('foreach', array, item, index, body)
+            out.append('%s<foreach array="%s" item="%s"%s>' % (ind, a[1], a[2], (' index="%s"' % a[3]) if a[3] else ''))
+            out += rn_actions(a[4], dm, ind + '  ')
+            out.append('%s</foreach>' % ind)
+        elif a[0] == 'script':       # ('script', var, expr): lua gets a <script>, the other datamodels the equivalent <assign>
+            if dm == 'lua': out.append('%s<script>%s = %s</script>' % (ind, a[1], esc(rn_expr(a[2], dm))))
+            else: out.append('%s<assign location="%s" expr="%s"/>' % (ind, a[1], esc(rn_expr(a[2], dm))))
+        elif a[0] == 'logev':        # name of the event being processed (lua only; promela/null log the label alone)
+            out.append('%s<log label="%s"%s/>' % (ind, a[1], ' expr="_event.name"' if dm == 'lua' else ''))
         elif a[0] == 'xml':          # verbatim element (fault injection etc.)
             out.append(ind + a[1])
         else:
@@ -198,6 +213,10 @@ def rn_actions(acts, dm, ind):
 def rn_data(items, dm, ind):
     L = ['%s<datamodel>' % ind]
     for k, v in items:
+        if isinstance(v, tuple) and v[0] == 'list':
+            if dm == 'promela': L.append('%s  <data id="%s" type="int[%d]">%s</data>' % (ind, k, len(v[1]), rn_expr(v, dm)))
+            else: L.append('%s  <data id="%s" expr="%s"/>' % (ind, k, rn_expr(v, dm)))
+            continue
         # a value may be an expression over data declared before it (document order = sorted by name)
         L.append('%s  <data id="%s" %sexpr="%s"/>' % (ind, k, 'type="int" ' if dm == 'promela' else '', esc(rn_expr(v, dm)) if isinstance(v, tuple) else '%d' % v))
     L.append('%s</datamodel>' % ind)
@@ -666,10 +685,77 @@ def gen_late_chart(seed, logexpr=True):
     return ch, hist
 
 
-def gen_chart(seed, **kw):
+def decorate(ch, rng, errors=True):
+    """Second pass with its own random stream (the base charts stay what they were): content kinds and event names beyond the base
+    generator - <foreach> over an integer array, <script> (lua), _event.name, nested <if>/<elseif>/<else>, transitions on error.* and
+    done.state.<id> events."""
+    proper = ch.proper()
+    has_data = bool(ch.data)
+    lab = [0]
+
+    def L(p):
+        lab[0] += 1; return 'R%s%d' % (p, lab[0])
+
+    def rex():
+        return rng.choice([('var', 'x'), ('var', 'y'), ('add', ('var', 'x'), ('const', 1))]) if has_data else None
+
+    def rcond():
+        r = rng.random()
+        if not has_data or r < 0.3: return ('in', rng.choice(proper).id)
+        if r < 0.65: return ('eq', ('var', rng.choice(['x', 'y'])), ('const', rng.randint(0, 2)))
+        return ('lt', ('var', rng.choice(['x', 'y'])), ('const', rng.randint(1, 3)))
+    blocks = []; evented = []
+    for s in ch.doc:
+        if s.kind == 'history':
+            for t in s.trans:
+                if t.content: blocks.append(t.content)
+            continue
+        blocks += s.onentry + s.onexit
+        if s.initial_elem and s.initial_elem[1]: blocks.append(s.initial_elem[1])
+        for t in s.trans:
+            if t.content:
+                blocks.append(t.content)
+                if t.events: evented.append(t.content)
+
+    def put(block, acts):
+        i = rng.randint(0, len(block))
+        block[i:i] = acts
+    if has_data and blocks:
+        if rng.random() < 0.45:
+            ch.data['arr'] = ('list', [rng.randint(0, 4) for _ in range(rng.randint(1, 4))]); ch.data['it'] = 0; ch.data['ix'] = 0
+            for _ in range(rng.randint(1, 2)):
+                body = [('log', L('F'), ('var', 'it'))]
+                r = rng.random()
+                if r < 0.4: body.append(('assign', 'x', ('add', ('var', 'x'), ('var', 'it'))))
+                elif r < 0.6: body.insert(0, ('if', [(('lt', ('var', 'it'), ('const', 2)), [('log', L('F'), ('var', 'x'))])], [('assign', 'y', ('var', 'it'))]))
+                elif r < 0.7 and errors: body.append(('assign', 'undecl.f', ('const', 1)))       # fails in the first iteration: foreach and block are aborted
+                put(rng.choice(blocks), [('foreach', 'arr', 'it', 'ix' if rng.random() < 0.5 else None, body)])
+        for _ in range(rng.choice([0, 0, 1, 2])):
+            put(rng.choice(blocks), [('script', rng.choice(['x', 'y']), rng.choice([('add', ('var', 'y'), ('const', 1)), ('sub', ('var', 'x'), ('const', 1)), ('const', 2)]))])
+    for _ in range(rng.choice([0, 1, 1, 2]) if evented else 0):
+        put(rng.choice(evented), [('logev', L('V'))])
+    for _ in range(rng.choice([0, 0, 1]) if blocks else 0):
+        inner = ('if', [(rcond(), [('log', L('I'), rex())]), (rcond(), [('log', L('I'), rex())])], [('log', L('I'), rex())] if rng.random() < 0.5 else None)
+        outer = ('if', [(rcond(), [('log', L('I'), rex()), inner]), (rcond(), [('log', L('I'), rex())]), (rcond(), [inner, ('log', L('I'), rex())])],
+                 [('log', L('I'), rex()), inner] if rng.random() < 0.6 else None)
+        put(rng.choice(blocks), [outer])
+    srcs = [s for s in proper if s.kind != 'final']
+    comp = [s for s in proper if s.kind in ('state', 'parallel') and s.states()]
+    for _ in range(rng.choice([0, 1, 1, 2]) if srcs else 0):
+        s = rng.choice(srcs)
+        evs = rng.choice([['error.execution'], ['error'], ['error.*'], ['error.execution', 'e2'], ['done.state.*'], ['done'],
+                          ['done.state.' + (rng.choice(comp).id if comp else 's1')]])
+        targets = [rng.choice(proper).id] if has_data and rng.random() < 0.5 else []
+        content = [('log', L('E'), rex())] + ([('logev', L('V'))] if rng.random() < 0.5 else [])
+        s.trans.insert(rng.randint(0, len(s.trans)), Tr(s, evs, None, targets, False, content))
+    ch.reindex()
+
+
+def gen_chart(seed, rich=False, **kw):
     rng = random.Random(seed)
     ch = Gen(rng, **kw).chart()
     hist = [rng.choice(EVENTS) for _ in range(rng.randint(1, 6))]
+    if rich: decorate(ch, random.Random(seed * 7919 + 13), errors=kw.get('errors', True))
     return ch, hist
 
 
